@@ -383,6 +383,11 @@ def run_c15(rep, tier):
         tasks += [(logic, 3, ch, dict(base, fair=1, audit=False)) for ch in chunks(exact_forms[::(1 if logic == 'CTL' else 4)], 6)]
         tasks += [(logic, 2, ch, dict(base, fair=0)) for ch in chunks(exact_forms[::4], 12)]              # F=[]: every path is fair
         tasks += [(logic, 2, ch, dict(base, fair=1, fair_const=True)) for ch in chunks(exact_forms[::4], 12)]   # F=[S]
+    if tier == 'thorough':
+        b2 = dict(ctls_oracle=True, outside_d7=d7, audit=False)
+        for vals in itertools.product([False, True], repeat=3):
+            fx = {'f1_%d' % i: v for i, v in enumerate(vals)}
+            tasks += [('CTL', 3, ch, dict(b2, fair=2, fixed=fx)) for ch in chunks(exact_forms[::2], 8)]
     inside = [('CTL', 2, egs, dict(base, fair=1, only_safety=True)), ('CTLS', 2, egs, dict(base, fair=1, only_safety=True)),
               ('CTL', 2, egs + safe[:20], dict(base, fair=2, outside_d7=False, only_safety=True))]
     if d9:
@@ -706,6 +711,10 @@ def run_c07(rep, tier):
     ctlf = formulas.CTL_SINGLE + formulas.ctl_pairs()[::6]
     ltlf = ['A G p', 'A (p U q)', 'A F G p', 'A (X p or F q)', 'A ((p U q) R p)']
     ctlsf = ['E F X q', 'A (F G q --> E G p)', 'E (p U (A X q and X p))', 'E G F p', 'E X A X p', '(p and A X E X q)', 'A F E G p']
+    if tier == 'thorough':
+        ctlf = formulas.ctl_phi1() + formulas.ctl_pairs()
+        ltlf = ['A %s' % formulas.par(g) for g in formulas.ltl_level1(formulas.ATOMS2) + formulas.ltl_paths(2)[2][::12]]
+        ctlsf = ctls_set('quick')[::4]
     o = dict(interleave=True, recall=True, as_text=True, edit_then_call=True)
     tasks = [('CTL', 3, ch, dict(o)) for ch in chunks(ctlf, 6)]
     tasks += [('LTL', 2, [x], dict(o)) for x in ltlf] + [('CTLS', 2, [x], dict(o)) for x in ctlsf]
@@ -754,6 +763,10 @@ def run_c19(rep, tier):
     ctlf = formulas.CTL_SINGLE + ['E X r', 'A G (p or r)', 'A(r U q)', 'E G not r'] + formulas.ctl_pairs()[::11]
     ltlf = ['A G p', 'A (p U q)', 'A F G p', 'A (r U p)', 'A X r']
     ctlsf = ['E F X q', 'E X (A F p)', 'A (F G q --> E G p)', 'A G (E X p)', 'E (r U (A X q and X p))', '(p and A X E X q)']
+    if tier == 'thorough':
+        ctlf = formulas.ctl_phi1() + ['E X r', 'A G (p or r)', 'A(r U q)', 'E G not r'] + formulas.ctl_pairs()[::2]
+        ltlf = ltlf + ['A %s' % formulas.par(g) for g in formulas.ltl_paths(2)[2][::10]]
+        ctlsf = ctlsf + ctls_set('quick')[::5]
     o = dict(recall=True, junk=junk)
     tasks = [('CTL', 3, ch, dict(o, states=mixed)) for ch in chunks(ctlf, 6)]
     tasks += [('CTL', 3, ch, dict(o, states=['s t', 'A', 'or'], perm=[1, 2, 0])) for ch in chunks(ctlf[::2], 6)]
